@@ -188,6 +188,68 @@ def repeated_event_family():
     return out
 
 
+def _adjacent(seq):
+    prev = None
+    for it in seq:
+        if it[0] == 'ev' and prev == 'ev':
+            return True
+        prev = it[0]
+        if it[0] == 'loop' and _adjacent(it[1]):
+            return True
+        if it[0] in ('and', 'or', 'xor') and any(_adjacent(b) for b in it[1]):
+            return True
+    return False
+
+
+def _nblocks(seq):
+    n = 0
+    for it in seq:
+        if it[0] == 'loop':
+            n += 1 + _nblocks(it[1])
+        elif it[0] in ('and', 'or', 'xor'):
+            n += 1 + sum(_nblocks(b) for b in it[1])
+    return n
+
+
+def _depth(seq):
+    d = 0
+    for it in seq:
+        if it[0] == 'loop':
+            d = max(d, 1 + _depth(it[1]))
+        elif it[0] in ('and', 'or', 'xor'):
+            d = max(d, 1 + max(_depth(b) for b in it[1]))
+    return d
+
+
+def _nbreaks(seq):
+    n = 0
+    for it in seq:
+        if it[0] == 'break':
+            n += 1
+        elif it[0] == 'loop':
+            n += _nbreaks(it[1])
+        elif it[0] in ('and', 'or', 'xor'):
+            n += sum(_nbreaks(b) for b in it[1])
+    return n
+
+
+def skeletons(n, blocks=3, chain=False, min_breaks=0):
+    """definitions of F with exactly n events and `blocks` blocks in which no
+    two events are adjacent (structure with minimal event padding): deeper
+    block structure than F_7 reaches, at a fraction of the size of F_n.
+    chain=True keeps only those whose blocks are nested in one chain."""
+    out = []
+    for s in seqs(n, 3, 2, True, False, False):
+        if _adjacent(s) or _nblocks(s) != blocks:
+            continue
+        if chain and _depth(s) != blocks:
+            continue
+        if _nbreaks(s) < min_breaks:
+            continue
+        out.append(name(s))
+    return out
+
+
 def F_plus_extra(nmax):
     """multi-start variants: leading event removed when a fork follows it.
     (a definition of F with n+1 events gives a variant with n events)"""
